@@ -149,6 +149,9 @@ FUNCTIONS = [
     ('parse_mpint', 'readbuf.py', 'ReadBuf._parse_mpint', {'unit': 'Logic5'}),
     ('mpint2_pad_fmt', 'readbuf.py', 'ReadBuf.read_mpint2', {'unit': 'Logic5', 'extract': 'block', 'select': [('assign', 'pad')],
         'free': {'v': 'bytes'}, 'out': ['pad', 'f']}),
+    ('create_mpint', 'writebuf.py', 'WriteBuf._create_mpint', {'unit': 'Logic5', 'extract': 'block',
+        'select': [('range', ('assign', 'length'), ('if-names', ['signed']))],
+        'free': {'n': 'int', 'signed': 'bool', 'bits': 'int'}, 'out': ['data']}),
     ('is_print_ascii_char', 'utils.py', 'Utils.is_print_ascii', {'unit': 'Logic2', 'extract': 'lambda', 'params': ['int']}),
     # candidates that are outside the subset (kept in the table so that the reason is reported on every run)
     ('ctoi', 'utils.py', 'Utils.ctoi', {}),
@@ -950,8 +953,17 @@ class Tr:
         if node.keywords:
             bad(node, 'keyword arguments')
         f = node.func
+        if dotted(f) == 'struct.pack' and 'struct' not in env and len(node.args) == 2 and isinstance(node.args[1], ast.Starred):
+            # struct.pack(fmt, *xs): `none` (struct.error) unless fmt is '>kQ' for the k = len(xs) values, each in 0 .. 2^64-1
+            fm, tf = self.expr(node.args[0], env, binds)
+            xs, tx = self.expr(node.args[1].value, env, binds)
+            if tf != STR or tx != tlist(INT):
+                bad(node, 'struct.pack(fmt, *xs) of something other than (str format, list of ints)')
+            return self.partial(node, binds, 'Py.packQ %s %s' % (fm, xs)), BYTES
         if isinstance(f, ast.Name) and f.id not in env:
             args = [self.expr(a, env, binds) for a in node.args]
+            if f.id == 'bytes' and len(args) == 1 and args[0][1] == BYTES:
+                return args[0]
             if f.id == 'len' and len(args) == 1 and (args[0][1] in (STR, BYTES) or args[0][1][0] == 'list'):
                 return '(Int.ofNat (%s).length)' % args[0][0], INT
             if f.id == 'ord' and len(args) == 1 and args[0][1] in (STR, BYTES):
@@ -971,19 +983,23 @@ class Tr:
                 if '{' in ''.join(pieces) or '}' in ''.join(pieces):
                     bad(node, 'format template with anything but plain {} fields')
                 args = [self.expr(a, env, binds) for a in node.args]
-                if len(args) != len(pieces) - 1 or any(t != STR for _, t in args):
-                    bad(node, 'format arguments that are not exactly one str per {} field')
+                if len(args) != len(pieces) - 1 or any(t not in (STR, INT) for _, t in args):
+                    bad(node, 'format arguments that are not exactly one str / int per {} field')
                 out = []
                 for i, p in enumerate(pieces):
                     if p:
                         out.append(lit(p, node)[0])
                     if i < len(args):
-                        out.append(args[i][0])
+                        out.append(args[i][0] if args[i][1] == STR else '(Py.fmtD %s)' % args[i][0])
                 return ('(' + ' ++ '.join(out) + ')' if out else '([] : Str)'), STR
             recv, tr_ = self.expr(f.value, env, binds)
             args = [self.expr(a, env, binds) for a in node.args]
             if meth in ('startswith', 'endswith') and tr_ in (STR,) and len(args) == 1 and args[0][1] == STR:
                 return '(Text.%s %s %s)' % ('startsWith' if meth == 'startswith' else 'endsWith', recv, args[0][0]), BOOL
+            if meth == 'startswith' and tr_ == BYTES and len(args) == 1 and args[0][1] == BYTES:
+                return '(Py.startsWithB %s %s)' % (recv, args[0][0]), BOOL
+            if meth == 'lstrip' and tr_ == BYTES and len(args) == 1 and args[0][1] == BYTES:
+                return '(Py.lstripB %s %s)' % (recv, args[0][0]), BYTES
             if meth == 'join' and tr_ == STR and len(args) == 1 and args[0][1] == tlist(STR):
                 return '(Text.join %s %s)' % (recv, args[0][0]), STR
             if meth == 'find' and tr_ == STR and len(args) == 1 and args[0][1] == STR:
